@@ -403,9 +403,9 @@ func (x *Exec) chanRecv(s *State, e *ast.UnaryExpr, commaOk bool) Val {
 	if call, ok := unparen(e.X).(*ast.CallExpr); ok {
 		if sel, ok := unparen(call.Fun).(*ast.SelectorExpr); ok && sel.Sel.Name == "Done" && len(call.Args) == 0 {
 			if s.ctxDone == nil {
-				s.ctxDone = map[string]bool{}
+				s.ctxDone = map[string]string{}
 			}
-			s.ctxDone[exprString(sel.X)] = true
+			s.ctxDone[exprString(sel.X)] = "true"
 		}
 	}
 	// contract option recv_nonnil: pointers/interfaces sent on the channels of this function are never nil
